@@ -2,7 +2,7 @@
 import json
 import sys
 
-from ctlcase import (OPEN, READ, WRITEPAT, DUMP, RETRY, ENABLE, PARAMS, ctl_case, model_term, parse_output, show_data,
+from ctlcase import (OPEN, READ, WRITEPAT, DUMP, RETRY, ENABLE, PARAMS, GENAPI, ctl_case, model_term, parse_output, show_data,
                      std_world, pattern, SBRM, SIRM)
 from vplib import Check, Rng, _clip, xhex
 
@@ -116,6 +116,8 @@ def scenario(fault_at, fault_toks, ops, mc=MC, ma=MA, extra_world=None, second=N
             optoks += [PARAMS]
         elif op["k"] == "d":
             optoks += [DUMP, op["a"], op["n"]]
+        elif op["k"] == "g":
+            optoks += [GENAPI]
     return w, wt, optoks
 
 
@@ -234,6 +236,24 @@ def gen_cases(ck):
             w, wt, optoks = scenario(None, None, [dict(k="e"), dict(k="p"), dict(k="r", a=DATA, n=4)], mc=mc,
                                      extra_world=pokes)
             add("hostile %s max_cmd=%d" % (name, mc), w, wt, optoks, [("any",)] * 4, fault="bootstrap")
+    # hostile manifest tables (XML retrieval): table and entries at the very top of the address space, absurd
+    # entry counts; the model of genapi() belongs to C14, so these cases run on the implementation with the
+    # predicate only (no panic, no hang, the follow-up read succeeds)
+    TOP = 1 << 64
+    for k in range(0, 4):
+        for d in (0, 1, 7, 8, 9, 63, 64, 65):
+            t = TOP - 8 - 64 * k - d
+            for count in (0, 1, 2, 3, k, k + 1, k + 2, 1 << 16, 1 << 32, 1 << 63, TOP - 1):
+                w = std_world(MC, MA, 5, manifest=t)
+                w.fill(DATA, DATA_LEN, 23)
+                w.seg(TOP - 8192, bytes(8192))
+                if t + 8 <= TOP:
+                    w.poke(t, 8, count)
+                optoks = [OPEN, GENAPI, READ, DATA, 4]
+                c = ctl_case(list(w.toks), optoks, dict(name="hostile manifest t=2^64-%d count=%d" % (TOP - t, count),
+                                                       expect=[("ok", None), ("any",), ("ok", show_data(w.read(DATA, 4)))],
+                                                       fault="manifest", retry=3, model=False))
+                cases.append(c)
     # faults inside enable_streaming
     for at in range(6, 6 + 16):
         for kn, ftoks in kinds[:4]:
@@ -251,7 +271,8 @@ def main():
                "garbage packets, stale acknowledge, pending x0..5 / forever / malformed), each followed by a conforming "
                "read (recovery); 7 fault kinds at every transaction of open / 3-chunk read / 3-chunk write; random "
                "double faults; degenerate limits 0..25 / u32::MAX; hostile bootstrap registers (SBRM/SIRM near 2^64 or "
-               "unmapped, alignment exponents 31/32/64/255, maximal required sizes); faults inside enable_streaming. "
+               "unmapped, alignment exponents 31/32/64/255, maximal required sizes); faults inside enable_streaming; XML retrieval "
+               "from manifest tables placed at every offset of the top of the address space with entry counts 0..2^64-1. "
                "Predicate (independent): no panic, no hang, fatal faults give Err, benign ones give the true memory, "
                "Ok never carries other bytes, at most `retry` receives per command, the follow-up read succeeds.")
     ck.trusted += ["rust/shim scripted device and its transcription in model/Control.v", "tools/c07.py, tools/ctlcase.py"]
@@ -281,9 +302,14 @@ def main():
     ck.phase("generate")
     impl = ck.run_impl(binary, [c.line for c in cases], jobs=16, big_stack=True, timeout=120)
     ck.phase("impl")
-    model = ck.run_model_terms(["ControlRun"], [model_term(c) for c in cases], per_eval=20, jobs=16)
+    both = [i for i, c in enumerate(cases) if c.meta.get("model", True)]
+    only = [i for i, c in enumerate(cases) if not c.meta.get("model", True)]
+    model = ck.run_model_terms(["ControlRun"], [model_term(cases[i]) for i in both], per_eval=20, jobs=16)
     ck.phase("model")
-    ck.compare(cases, impl, model, predicate, nontrivial, family="fault plans")
+    ck.compare([cases[i] for i in both], [impl[i] for i in both], model, predicate, nontrivial, family="fault plans")
+    if only:
+        ck.compare([cases[i] for i in only], [impl[i] for i in only], None, predicate, nontrivial,
+                   family="hostile manifest tables (implementation + predicate; genapi is modelled in C14)")
     names = {}
     for c in cases:
         k = c.meta["name"].split("/")[-1].split("-")[0].split(" ")[0]
